@@ -15,7 +15,7 @@ func init() { Families["life"] = lifeScenario }
 
 func lifeScenario(p map[string]any) *Scenario {
 	n, fail, cons, work := pint(p, "n", 3), pint(p, "fail", 0), pstr(p, "cons", "both"), pstr(p, "work", "touch")
-	sc := &Scenario{Name: fmt.Sprintf("life/n%d/fail%d/%s/%s", n, fail, cons, work), Params: p}
+	sc := &Scenario{Name: fmt.Sprintf("life/n%d/fail%d/%s/%s", n, fail, cons, work), Params: p, CountFds: true}
 	sc.Body = func(x *X) {
 		mustNil(os.Mkdir("w/d", 0o755))
 		vs := vsys.Get()
@@ -56,6 +56,9 @@ func lifeScenario(p map[string]any) *Scenario {
 			if o.Kind == "note" && o.What == "newwatcher-failed" && o.Arg != "fds+0 threads+0 w-nil=true" {
 				out = append(out, Violation{Property: "C13", Signature: "failed NewWatcher leaked: " + o.Arg, Detail: o.Arg})
 			}
+		}
+		if len(e.NewFds) > 0 {
+			out = append(out, Violation{Property: "C13", Signature: "descriptor leaked across create/close cycles: " + e.NewFds[0], Detail: fmt.Sprint(e.NewFds)})
 		}
 		if len(e.Pending) == 0 && (len(e.LeftOpen) > 0 || len(e.LibAlive) > 0) {
 			out = append(out, Violation{Property: "C13",
